@@ -1608,7 +1608,7 @@ func runScenario(sc *Scenario) ([]Case, error) {
 	cases, err := r.finish()
 	if err == nil && r.viol == nil && len(cases) > 0 && cases[0].Oracle != nil {
 		switch cases[0].Oracle.Class {
-		case "pipe-filter-not-applied", "pipe-first-notification-reorder", "pipe-copied-unflushed-history", "pipe-copied-pre-creation-events":
+		case "pipe-first-notification-reorder", "pipe-copied-unflushed-history", "pipe-copied-pre-creation-events":
 		default:
 			atomic.AddInt32(&badScenarios, 1)
 		}
